@@ -144,16 +144,38 @@ func cloneCmds(in []database.Command) []database.Command {
 	return out
 }
 
-// warmUp issues 0-3 unrelated searches on db before the search under test: a Database is
-// a long-lived value, and an answer must not depend on what was asked of it before
+// warmUp issues 0-3 searches on db before the search under test: a Database is a
+// long-lived value, and an answer must not depend on what was asked of it before
 // (memoised filter verdicts, lazily filled caches, corpora keyed too coarsely, ...).
-func warmUp(t *rapid.T, db *database.Database, cmds []database.Command) int {
+// Half of the warm-ups are one-field deltas of the search under test (same query, one
+// option changed) - the history most likely to collide with state keyed on too little.
+func warmUp(t *rapid.T, db *database.Database, cmds []database.Command, target ...any) int {
 	n := rapid.SampledFrom([]int{0, 0, 1, 2, 3}).Draw(t, "warmups")
 	for i := 0; i < n; i++ {
 		q, _ := gen.Query(t, cmds, []gen.QueryClass{"vocab", "stop", "one", "typo", "fragment", "nlp"})
 		o := gen.Options(t, gen.OptSpec{N: len(cmds), NoNegLimit: true})
 		if rapid.Bool().Draw(t, "warm-fuzzy") {
 			o.UseFuzzy = true
+		}
+		if len(target) == 2 && rapid.Bool().Draw(t, "warm-delta") {
+			q = target[0].(string)
+			o = target[1].(database.SearchOptions)
+			switch rapid.IntRange(0, 6).Draw(t, "delta-field") {
+			case 0:
+				o.Platforms = rapid.SampledFrom([][]string{nil, {"windows"}, {"macos"}, {"linux"}, {"windows", "linux"}}).Draw(t, "d-platforms")
+			case 1:
+				o.NoCrossPlatform = !o.NoCrossPlatform
+			case 2:
+				o.AllPlatforms = !o.AllPlatforms
+			case 3:
+				o.PipelineOnly = !o.PipelineOnly
+			case 4:
+				o.Limit = rapid.SampledFrom([]int{1, 2, 5, 50}).Draw(t, "d-limit")
+			case 5:
+				o.UseNLP = !o.UseNLP
+			default:
+				o.FuzzyThreshold = rapid.SampledFrom([]int{0, 5, 40}).Draw(t, "d-threshold")
+			}
 		}
 		db.SearchUniversal(q, o)
 	}
